@@ -222,7 +222,11 @@ func buildCert(r *hx.Rand, g *hx.Gen, tc timeCase) built {
 	}
 	var sig *wire.Sig
 	flags := hx.Pick(r, []byte{1, 1, 0, 5, 4})
-	switch r.Intn(12) {
+	how := r.Intn(12)
+	if how == 1 && caKind == "rsa" {
+		how = 0 // the three fixed RSA keys: "another key" could be the same one
+	}
+	switch how {
 	case 0: // signature over something else
 		sig = spec.CA.Sign("", append([]byte("x"), msg...), flags, 7)
 		b.sigover = "bad"
